@@ -100,7 +100,11 @@ let is_prefix_del del acc =
 (* ---- channel ---- *)
 (* [chan <wk> <rm> ...] names the mode; [chanflags <flags> ...] gives the raw flags integer and the
    model's mode table (mk_cfg_flags = flag_wk / flag_rm of coq/C01/Dispatch.v) selects the mode *)
-let chan_setup kind ws maxtry =
+let chan_setup kind ws maxtry (vals : (int, int) Hashtbl.t) =
+  let with_vals g =
+    if Hashtbl.length vals = 0 then g
+    else with_val g (fun m -> let tg = int_of_z (tag m) in
+                      z_of_int (try Hashtbl.find vals tg with Not_found -> tg)) in
   let ws = (match kind, ws with
       | "chanflags", f :: rest -> "#" :: f :: rest
       | _ -> ws) in
@@ -111,9 +115,11 @@ let chan_setup kind ws maxtry =
     let g =
       if wk = "#" then mk_cfg_flags (z_of_int (int_of_string rm)) (z_of_int (int_of_string cap)) (nat_of_int nw) (nat_of_int maxtry)
       else mk_cfg (wk_of wk) (rm_of rm) (z_of_int (int_of_string cap)) (nat_of_int nw) (nat_of_int maxtry) in
-    let st0 = cinit g (nat_of_int (int_of_string nread))
-        (fun t -> let i = int_of_nat t in if i >= 1 && i <= nw then nat_of_int ks.(i - 1) else O) in
-    Some (g, st0, nw)
+    let g = with_vals g in
+    let ksf = (fun t -> let i = int_of_nat t in if i >= 1 && i <= nw then nat_of_int ks.(i - 1) else O) in
+    let nrd = nat_of_int (int_of_string nread) in
+    let st0 = cinit g nrd ksf in
+    Some (g, st0, nw, nrd, ksf)
   | _ -> None
 
 let chan_bad st =
@@ -123,19 +129,30 @@ let chan_bad st =
   else if int_of_nat (c_badfull st) > 0 then Some "FULL returned although the ring was not at capacity"
   else None
 
-let explore_chan p g st0 nw seed runs =
+(* the exploration runs the PRODUCT of the channel model and the read-before-overwrite observer
+   (coq/C01/ModelRC.v): besides the ghost counters of the channel state, an uncovered overwrite
+   (slot store not ordered after an earlier read of the slot) is a finding *)
+let xbad xs =
+  match chan_bad xs.x_s with
+  | Some why -> Some why
+  | None ->
+    if int_of_nat xs.x_r.r_unc > 0
+    then Some "a writer stored into a slot although the reader's read of the previous message in that slot is not ordered before the store (read_cursor is not stored with release: the slot load may complete after the writer sees the slot free)"
+    else None
+
+let explore_chan p g _st0 nw seed runs nread ks =
   Random.init seed;
   let found = ref false and r = ref 0 in
   while not !found && !r < runs do
     incr r;
-    let st = ref st0 and sched = ref [] and k = ref 0 in
+    let st = ref (xinit g nread ks) and sched = ref [] and k = ref 0 in
     while not !found && !k < 600 do
       incr k;
       let t = Random.int (nw + 1) and c = (match Random.int 8 with 0 | 1 -> 1 | 2 -> 2 | 3 -> 3 | _ -> 0) in
-      (match cstep p g !st (nat_of_int t) (nat_of_int c) with
+      (match xstep p g !st (nat_of_int t) (nat_of_int c) with
        | Some (s', _) -> st := s'; sched := (t, c) :: !sched
        | None -> ());
-      (match chan_bad !st with
+      (match xbad !st with
        | Some why ->
          found := true;
          Printf.printf "FOUND %s\n" why;
@@ -209,19 +226,20 @@ let guide_chan g st0 nw seed target tries =
   Printf.printf "sched list - %s\n" (String.concat " " (List.map string_of_int sched));
   Printf.printf "hits %s\n" (String.concat " " (List.sort compare hits))
 
-let replay_chan p g st0 sched =
-  let st = ref st0 in
+let replay_chan p g _st0 sched nread ks =
+  let st = ref (xinit g nread ks) in
   List.iter (fun tc ->
     match String.split_on_char ':' tc with
     | [t; c] ->
-      (match cstep p g !st (nat_of_int (int_of_string t)) (nat_of_int (int_of_string c)) with
+      (match xstep p g !st (nat_of_int (int_of_string t)) (nat_of_int (int_of_string c)) with
        | Some (s', _) -> st := s' | None -> ())
     | _ -> ()) sched;
-  Printf.printf "M accepted=[%s] delivered=[%s] uncovered=%d overwritten=%d badfull=%d\n"
-    (String.concat "," (List.map (fun m -> string_of_int (int_of_z (tag m))) (c_acc !st)))
-    (String.concat "," (List.map (fun d -> string_of_int (tagopt d)) (c_del !st)))
-    (int_of_nat (c_uncov !st)) (int_of_nat (c_overw !st)) (int_of_nat (c_badfull !st));
-  (match chan_bad !st with Some why -> Printf.printf "FOUND %s\n" why | None -> print_endline "NOTFOUND")
+  let cs = !st.x_s in
+  Printf.printf "M accepted=[%s] delivered=[%s] uncovered=%d overwritten=%d badfull=%d overwrite_before_read_completes=%d\n"
+    (String.concat "," (List.map (fun m -> string_of_int (int_of_z (tag m))) (c_acc cs)))
+    (String.concat "," (List.map (fun d -> string_of_int (tagopt d)) (c_del cs)))
+    (int_of_nat (c_uncov cs)) (int_of_nat (c_overw cs)) (int_of_nat (c_badfull cs)) (int_of_nat !st.x_r.r_unc);
+  (match xbad !st with Some why -> Printf.printf "FOUND %s\n" why | None -> print_endline "NOTFOUND")
 
 let handle (lines : string list) : unit =
   let rec split acc = function
@@ -230,24 +248,27 @@ let handle (lines : string list) : unit =
     | [] -> (List.rev acc, []) in
   let (cfgl, trace) = split [] lines in
   let scen = ref [] and prm = ref sc_params and explore = ref None and maxtry = ref 0 and msched = ref None and guide = ref None in
+  let vals : (int, int) Hashtbl.t = Hashtbl.create 16 in
   List.iter (fun l -> match words l with
-    | ("chan" | "chanflags" | "abq" | "dbuf") :: _ as w -> scen := w
+    | ("chan" | "chanflags" | "abq" | "dbuf" | "bigfill") :: _ as w -> scen := w
     | "params" :: ps -> prm := params_of ps
     | ["maxtry"; n] -> maxtry := int_of_string n
+    | "v" :: ps -> List.iter (fun p -> match String.split_on_char ':' p with
+        | [tg; c] -> Hashtbl.replace vals (int_of_string tg) (int_of_string c) | _ -> ()) ps
     | ["explore"; sd; runs] -> explore := Some (int_of_string sd, int_of_string runs)
     | ["guide"; sd; target; tries] -> guide := Some (int_of_string sd, target, int_of_string tries)
     | "modelsched" :: s -> msched := Some s
     | _ -> ()) cfgl;
   match !scen with
   | ("chan" | "chanflags" as kind) :: ws ->
-    (match chan_setup kind ws !maxtry with
+    (match chan_setup kind ws !maxtry vals with
      | None -> print_endline "F badcase"
-     | Some (g, st0, nw) ->
+     | Some (g, st0, nw, nrd, ksf) ->
        (match !msched, !explore with
         | _, _ when !guide <> None ->
           (match !guide with Some (sd, target, tries) -> guide_chan g st0 nw sd target tries | None -> ())
-        | Some s, _ -> replay_chan !prm g st0 s
-        | None, Some (sd, runs) -> explore_chan !prm g st0 nw sd runs
+        | Some s, _ -> replay_chan !prm g st0 s nrd ksf
+        | None, Some (sd, runs) -> explore_chan !prm g st0 nw sd runs nrd ksf
         | None, None ->
           Printf.printf "F init 0 cap=%s\n" (string_of_z g.g_cap);
           let step = cstep sc_params g in
@@ -255,6 +276,17 @@ let handle (lines : string list) : unit =
               (fun op _ _ c -> if op = "casw" && c = 2 then 1 else if op = "fwait" && (c = 2 || c = 3) then c else 0) note_of (none_enabled step (nw + 1)) trace in
           if ok then Printf.printf "F acc=%d del=%d wcur=%s rcur=%s\n" (List.length (c_acc st)) (List.length (c_del st))
               (string_of_z (c_wcur st)) (string_of_z (c_rcur st))))
+  | ["bigfill"; flags; cap; drain] ->
+    (* single-threaded fill / drain of a large ring: not replayed step by step (the accepted history of the
+       model is a list); the model's answer is the closed form its invariant gives: a writer running alone is
+       refused exactly when accepted - read = usable capacity (chan_full_only_if_full, SInv i_RW), reads
+       return the accepted messages in order (chan_exactly_once_in_order) *)
+    let g = mk_cfg_flags (z_of_int (int_of_string flags)) (z_of_int (int_of_string cap)) (S O) O in
+    let c = int_of_z g.g_cap and u = int_of_z (usable g.g_cap) and d = int_of_string drain in
+    let d = if d < u then d else u in
+    let tot = u + d in
+    Printf.printf "F init 0 cap=%d\n" c;
+    Printf.printf "F big fill1=%d refused=1 fill2=%d read=%d bad=-1 wcur=%d rcur=%d\n" u d tot (tot mod c) ((tot + c - 1) mod c)
   | "abq" :: cap :: np :: rest ->
     let np = int_of_string np and cap = int_of_string cap in
     let ks = Array.of_list (List.map int_of_string rest) in
